@@ -408,6 +408,12 @@ class Enumerator:
     def assign(self, target, value, path, st):
         if isinstance(target, ast.Name):
             return self.assign_value(target.id, value, path)
+        if isinstance(target, (ast.Tuple, ast.List)) and isinstance(value, ast.IfExp):
+            # a, b = X if T else Y: one path per outcome
+            out = []
+            for p, v in self.split(value.test, path):
+                out.extend(self.assign(target, value.body if v else value.orelse, p, st))
+            return out
         if isinstance(target, (ast.Tuple, ast.List)):
             elts = None
             if isinstance(value, (ast.Tuple, ast.List)) and len(value.elts) == len(target.elts):
